@@ -1,4 +1,5 @@
 # Copyright (C) 2022 Andrea Francia Bereguardo(PV) Italy
+import os
 from typing import Iterable
 
 from trashcli.empty.console import Console
@@ -29,7 +30,7 @@ class Emptier:
             if dry_run:
                 self.console.print_dry_run(path)
             else:
-                if (path.endswith('.trashinfo') and
+                if (is_info_file(path) and
                         path_of_backup_copy(path) in not_removed):
                     # its file is still there: keep what describes it
                     continue
@@ -58,3 +59,9 @@ class Emptier:
             for orphan in self.trash_dir_reader.list_orphans(
                     trash_dir.path):
                 yield orphan
+
+
+def is_info_file(path):
+    # a file in info/, not a trashed file that is itself called X.trashinfo
+    return (path.endswith('.trashinfo') and
+            os.path.basename(os.path.dirname(path)) == 'info')
